@@ -25,7 +25,7 @@ import textwrap
 from pathlib import Path
 
 ID = "C20"
-LEVEL_TEXT = ("24 theorems, all closed under the global context, for every repository state, reference, package content, sequence of "
+LEVEL_TEXT = ("25 theorems, all closed under the global context, for every repository state, reference, package content, sequence of "
               "loader stages / extension hooks and every placement of faults: each git call may fail or raise, before or after taking "
               "effect, or be TORN (`worktree add` interrupted after `git branch`, `worktree remove` after deleting the directory); the "
               "removal of the TemporaryDirectory may raise at once, in the middle or on return. load_git restores the repository EXACTLY "
@@ -54,7 +54,9 @@ MODEL = ("Model.C20_git", "run_C20")
 COQ_TARGETS = ["Proofs/C20_git.vo"]
 RULE = ("seeded repositories (5-8 commits; package present / absent / top-level syntax error / broken submodule; lightweight and annotated "
         "tags; branches with slashes; HEAD on main, on a slash branch or detached; dirty main worktree with untracked, modified, staged "
-        "files and a stash; foreign worktrees healthy / locked-stale / stale); per repository: every reference of a pool (tags, slash "
+        "files and a stash; foreign worktrees healthy / locked-stale / stale / in a directory NAMED like the normalised branch they hold; a "
+        "branch named like the repository directory; modules tracked through symbolic links: file link inside the package, directory link out "
+        "of it); per repository: every reference of a pool (tags, slash "
         "branches, HEAD, @, HEAD~1, full and abbreviated sha, unknown, ambiguous, existing griffe-<ref> branch) without fault; every "
         "single-fault placement (git calls x fail/raise x before/after, torn add / remove with and without exception, mkdtemp, removal of "
         "the temp dir x at once / torn / on return x OSError / KeyboardInterrupt) with clean and dirty body; pairs of faults; every loader "
@@ -217,6 +219,13 @@ def mutate_api(rng, api, counter):
     return api, op
 
 
+SYMLINKED_FILES = {f"{PKG}/_impl.py": '"""Implementation."""\n\n\ndef compat_func(a, b):\n    """Doc."""\n    return a + b\n',
+                   "third_party/vendored/__init__.py": '"""Vendored."""\n\nVALUE = 1\n\n\ndef vendored_func(x):\n    return [x]\n',
+                   "third_party/vendored/inner.py": '"""Inner."""\n\n\nclass Inner:\n    def method(self):\n        return 0\n'}
+SYMLINKS = {f"{PKG}/compat.py": "_impl.py", f"{PKG}/vendored": "../third_party/vendored"}
+SYMLINK_MODULES = {"compat": "compat_func", "vendored": "vendored_func"}       # member of the package -> an object it must hold
+
+
 class Repo:
     """A generated repository plus everything the abstraction needs to know about it."""
 
@@ -279,6 +288,15 @@ class Repo:
                     sub_broken = rng.random() < 0.2
                 (pkgdir / "__init__.py").write_text(init_text)
                 (pkgdir / "sub.py").write_text("def helper(:\n" if sub_broken else f'"""sub {k}"""\n\ndef helper(x):\n    return x\n')
+                # modules tracked through symbolic links: a file link inside the package, a directory link out of it
+                for rel, text in SYMLINKED_FILES.items():
+                    f = pkgdir.parent / rel
+                    f.parent.mkdir(parents=True, exist_ok=True)
+                    f.write_text(text)
+                for rel, target in SYMLINKS.items():
+                    link = pkgdir.parent / rel
+                    if not link.is_symlink():
+                        link.symlink_to(target)
             date = f"2020-01-{k + 1:02d}T00:00:00 +0000"
             env = dict(os.environ, GIT_AUTHOR_DATE=date, GIT_COMMITTER_DATE=date)
             git(self.path, "add", "-A", env=env)
@@ -313,6 +331,11 @@ class Repo:
             self.ambiguous = tname
         else:
             self.ambiguous = None
+        # a branch named like the repository directory: the checkout of that reference is a directory with the same last
+        # component as the main worktree
+        k = rng.randrange(n)
+        git(self.path, "branch", self.name, self.commits[k]["sha"])
+        self.base_branches[self.name] = k
         if self.profile.get("existing_tmp_branch"):
             # the user happens to own a branch called griffe-<normref of some tag>
             tname = next(t for t in sorted(self.tags) if t != self.ambiguous)
@@ -340,10 +363,24 @@ class Repo:
         # foreign worktrees
         self.foreign = []
         fw = self.profile.get("foreign", rng.choice([[], ["healthy"], ["healthy", "locked-stale"]]))
+        self.named_for = None
         for j, kind in enumerate(fw):
             d = self.foreign_root / f"wt{j}"
             d.parent.mkdir(parents=True, exist_ok=True)
             bname = f"user/wt{j}"
+            if kind == "named":
+                # the user's own worktree of a branch, in a directory named like the (normalised) branch:
+                # `git worktree add ../worktrees/feat-x feat/x`
+                cur = git(self.path, "symbolic-ref", "-q", "--short", "HEAD", check=False).stdout.strip()
+                cands = sorted(b for b, kk in self.base_branches.items() if kk is not None and b not in (self.ambiguous, "main", cur, self.name)
+                               and not b.startswith("griffe-"))
+                self.named_for = rng.choice(cands)
+                d = self.foreign_root / "worktrees" / py_checkout_name(self.named_for)
+                d.parent.mkdir(parents=True, exist_ok=True)
+                git(self.path, "worktree", "add", "-q", str(d), self.named_for)
+                self.foreign.append((str(d), kind))
+                self.pathids[str(d)] = 4 + j
+                continue
             git(self.path, "worktree", "add", "-q", "-b", bname, str(d), self.commits[rng.randrange(n)]["sha"])
             self.base_branches[bname] = None
             if kind == "locked-stale":
@@ -957,6 +994,12 @@ def check_returned_object(repo, obj, ref_idx, env):
                 problems.append({"function": node.name, "lineno": [f.lineno, f.endlineno], "expected": [node.lineno, node.end_lineno]})
             if [p.name for p in f.parameters] != c["api"][node.name]:
                 problems.append({"function": node.name, "parameters": [p.name for p in f.parameters]})
+    for name, member in SYMLINK_MODULES.items():
+        m = obj.members.get(name)
+        if m is None or not m.is_module or member not in m.members:
+            problems.append(f"module {name} (tracked through a symbolic link) missing or without {member}")
+        elif not m.members[member].source.startswith("def " + member):
+            problems.append({"symlinked module": name, "source of " + member: m.members[member].source[:60]})
     if ("sub" in obj.members) == c["sub_broken"]:
         problems.append(f"submodule presence {('sub' in obj.members)} with sub_broken={c['sub_broken']}")
     elif not c["sub_broken"] and "helper" in obj.members["sub"].members:
@@ -1006,12 +1049,35 @@ def iter_objects(obj, seen=None):
             yield from iter_objects(m, seen)
 
 
+def git_show_following(gitdir, ref, relpath):
+    """`git show <ref>:<relpath>` where components of relpath may be symbolic links tracked by git (mode 120000)."""
+    parts = relpath.split("/")
+    done = []
+    hops = 0
+    while parts:
+        done.append(parts.pop(0))
+        cur = "/".join(done)
+        ls = git(gitdir, "ls-tree", ref, "--", cur, check=False).stdout.split()
+        if not ls:
+            return None
+        if ls[0] == "120000":
+            hops += 1
+            if hops > 8:
+                return None
+            target = git(gitdir, "cat-file", "-p", f"{ref}:{cur}").stdout
+            done = os.path.normpath(os.path.join("/".join(done[:-1]), target)).split("/")
+            if done[0] == "..":
+                return None
+    pr = git(gitdir, "show", f"{ref}:{'/'.join(done)}", check=False)
+    return pr.stdout if pr.returncode == 0 else None
+
+
 def audit_returned(gitdir, ref, obj, env):
     """After load_git has returned: for every module of the returned tree (statically or dynamically analysed) `.lines` /
     `.source` must be the text git holds for that reference (`git show <ref>:<path>`), every object with a line span must
     give exactly that slice, and none of it may touch the file system below TMPDIR (the checkout is gone: whatever is
     read from there now is read lazily). Returns (problems, lines queries for the model, statistics)."""
-    problems, queries, stats = [], [], {"modules": 0, "objects": 0, "spans": 0}
+    problems, queries, stats = [], [], {"modules": 0, "objects": 0, "spans": 0, "symlinked": 0}
     shown = {}
     with fs_audit(env.tmp) as hits:
         for o in iter_objects(obj):
@@ -1028,8 +1094,8 @@ def audit_returned(gitdir, ref, obj, env):
                 continue
             relpath = "/".join(rel[2:])
             if relpath not in shown:
-                pr = git(gitdir, "show", f"{ref}:{relpath}", check=False)
-                shown[relpath] = pr.stdout.splitlines() if pr.returncode == 0 else None
+                text = git_show_following(gitdir, ref, relpath)
+                shown[relpath] = text.splitlines() if text is not None else None
             want_all = shown[relpath]
             if want_all is None:
                 problems.append({"object": o.path, "file unknown to git at that reference": relpath})
@@ -1037,6 +1103,7 @@ def audit_returned(gitdir, ref, obj, env):
             try:
                 if o.is_module:
                     stats["modules"] += 1
+                    stats["symlinked"] += any(("/" + relpath).find("/" + l) >= 0 for l in SYMLINKS)
                     if os.path.lexists(str(fp)):
                         problems.append({"module": o.path, "checkout file still exists": str(fp)})
                     want = want_all
@@ -1224,7 +1291,7 @@ def judge_load(ctx, repo, rec, mout, label):
     if rec["obj_problems"]:
         ctx.property_failure(cj, {"what": "returned object not self-contained after cleanup", "problems": rec["obj_problems"][:4]})
     if rec["audit"]:
-        ctx.observe("load.audited", ("inspected" if case.get("inspect") else "static") + f":modules={rec['audit']['modules']}:spans={'some' if rec['audit']['spans'] else 'none'}")
+        ctx.observe("load.audited", ("inspected" if case.get("inspect") else "static") + f":modules={rec['audit']['modules']}:symlinked={rec['audit']['symlinked']}:spans={'some' if rec['audit']['spans'] else 'none'}")
     if rec["lines_queries"] and mout is not None:
         # the lines model (visit_files, obj_lines / obj_source on the EMPTY file system) against what the objects give
         for (q, got, path), m in zip(rec["lines_queries"], ctx.model([q for q, _, _ in rec["lines_queries"]])):
@@ -1797,6 +1864,11 @@ def oracle_sequences(ctx, env, repo, n_seq, length):
             [["mkdtemp", 1], ["add", "griffe-a", 1, good_ref], ["add", "griffe-b", 1, good_ref], ["remove", False, 1], ["branch-D", "griffe-b"]],  # live worktree
             [["mkdtemp", 1], ["add-torn", "griffe-a", 1, good_ref], ["add", "griffe-a", 1, good_ref], ["remove", True, 1], ["branch-D", "griffe-a"]],
             [["mkdtemp", 1], ["add", "griffe-a", 1, "nope"], ["add-torn", "griffe-a", 1, "nope"], ["occupy", 1], ["add", "griffe-a", 1, "nope"]],
+            # removal by NAME: unique, then ambiguous between two worktrees, then stale ones still count, then the main worktree's name
+            [["mkdtemp", 1], ["add", "griffe-a", 1, good_ref], ["touch", 1], ["remove-named", False, "wt"], ["remove-named", True, "wt"], ["branch-D", "griffe-a"]],
+            [["mkdtemp", 1], ["add", "griffe-a", 1, good_ref], ["mkdtemp", 2], ["add", "griffe-b", 2, good_ref], ["remove-named", True, "wt"],
+             ["rmtree", 2], ["remove-named", True, "wt"], ["prune"], ["remove-named", True, "wt"]],
+            [["mkdtemp", 3], ["add", "griffe-a", 3, good_ref], ["remove-named", True, "oracle"], ["remove", True, 3], ["remove-named", True, "oracle"]],
         ]
         for st in (scripted[s] if s < len(scripted) else []):
             if st[0] in ("add", "add-torn"):
@@ -1833,6 +1905,10 @@ def oracle_sequences(ctx, env, repo, n_seq, length):
             elif k < 0.47:
                 if not o.loc(p).exists() and not o.registered(p):
                     st = ["occupy", p]
+            elif k < 0.50:
+                st = ["remove-named", rng.random() < 0.6, rng.choice(["wt", "wt", o.work.name, "nomatch"])]
+                ctx.observe("oracle.named", f"{'main-name' if st[2] == o.work.name else st[2]}:registered-with-that-name="
+                            f"{sum(1 for q in (1, 2, 3) if o.loc(q).name == st[2] and o.registered(q))}")
             elif k < 0.58:
                 st = ["remove", rng.random() < 0.5, p]
             elif k < 0.68:
@@ -1852,7 +1928,7 @@ def oracle_sequences(ctx, env, repo, n_seq, length):
             ok = o.apply(st)
             real.append([ok, o.abstract()])
         try:
-            mo = ctx.model([["steps", s0, steps]])[0]
+            mo = ctx.model([["steps-named", *o.naming(), s0, steps]])[0]
         except Exception as e:
             if type(e).__name__ != "ModelUnavailable":
                 raise
@@ -1879,7 +1955,11 @@ class OracleRepo:
         return self.tmp / f"griffe-worktree-o{p}"
 
     def loc(self, p):
-        return self.tdir(p) / "wt"
+        # path ids 1 and 2 share the last component `wt`; path id 3 has the last component of the main worktree's directory
+        return self.tdir(p) / ("wt" if p < 3 else self.work.name)
+
+    def naming(self):
+        return [self.work.name, sorted([[p, self.loc(p).name] for p in (1, 2, 3)] + [[self.repo.pathids[path], os.path.basename(path)] for path, _ in self.repo.foreign])]
 
     def registered(self, p):
         out = git(self.work, "worktree", "list", "--porcelain").stdout
@@ -1901,6 +1981,9 @@ class OracleRepo:
             return True
         if k == "remove":
             a = ["worktree", "remove"] + (["--force"] if st[1] else []) + [str(self.loc(st[2]))]
+            return git(self.work, *a, check=False).returncode == 0
+        if k == "remove-named":     # the argument is a name, resolved by git against the last component of every worktree
+            a = ["worktree", "remove"] + (["--force"] if st[1] else []) + [st[2]]
             return git(self.work, *a, check=False).returncode == 0
         if k == "prune":
             return git(self.work, "worktree", "prune", check=False).returncode == 0
@@ -2298,7 +2381,7 @@ def explore(ctx):
     with Env(ctx) as env:
         notrepo = assert_safe(env)
         quick = ctx.quick
-        profiles = [{"layout": "src", "dirty": True, "foreign": ["healthy"], "head": "main"},
+        profiles = [{"layout": "src", "dirty": True, "foreign": ["healthy", "named"], "head": "main"},
                     {"layout": ".", "ambiguous": True, "existing_tmp_branch": True, "head": "detached", "foreign": ["healthy", "locked-stale"]},
                     {"head": "branch"}, {}, {"layout": "src"}, {}]
         repos = [Repo(ctx.seed, i, env, profiles[i]) for i in range(ctx.budget(2, 4))]
@@ -2450,6 +2533,9 @@ def explore(ctx):
                        faults(add=["torn", "KeyboardInterrupt"], remove=["fail-before"]), 7, "v1", [[0, "package"], [1, "package"]], []],
                       ["load_git", False, True, True, [["main"], 1, 0, [["main", 1]], [["v1", 0]], [], [], []],
                        faults(remove=["torn"], rmtree=["torn", "OSError"]), 7, "v1", [[0, "package"], [1, "package"]], [["write"]]],
+                      ["steps-named", "proj", [[1, "wt"], [2, "wt"], [3, "proj"]], [["main"], 1, 0, [["main", 1]], [["v1", 0]], [], [], []],
+                       [["mkdtemp", 1], ["add", "griffe-a", 1, "v1"], ["remove-named", True, "wt"], ["mkdtemp", 3], ["add", "griffe-a", 3, "v1"], ["remove-named", True, "proj"],
+                        ["mkdtemp", 1], ["add", "griffe-b", 1, "v1"], ["mkdtemp", 2], ["add", "griffe-c", 2, "v1"], ["remove-named", True, "wt"]]],
                       ["lines", ["tmp", "co"], [[["pkg", "a.py"], ["import os", "def f():", "    return 1", "x = 2"]]], ["pkg", "a.py"], 2, 3],
                       ["steps", [["main"], 1, 0, [["main", 1]], [["v1", 0]], [], [], []],
                        [["mkdtemp", 1], ["add", "griffe-a", 1, "v1"], ["touch", 1], ["remove", False, 1], ["branch-D", "griffe-a"], ["remove", True, 1], ["prune"], ["branch-D", "griffe-a"], ["rmtree", 1]]]]
